@@ -166,7 +166,8 @@ INVALID = ['2100-02-29', '1900-02-29', '2300-02-29T10:00:00Z', '2024-02-30', '20
            '2024-01-01T10:20:30+0100', '2024-01-01 10:20:30Z', '2024-00-10', '2024-01-00', '0000-01-01', '2023-02-29T12:00:00+00:00', '2024-01-01T10:60:00Z',
            '2024-01-01T10:20:61Z', '2024-01-01T10:20:30+25:00', '', ' 2024-01-01', '2024-01-01T10:20:30.1234567Z', '2024-04-31', '2021-02-29T00:00:00.000-05:00',
            '\uff12\uff10\uff12\uff12-\uff10\uff18-\uff12\uff19', '2022-08-29\n', '2022-08-2\uff19', '\u0662\u0660\u0662\u0662-\u0660\u0668-\u0662\u0669', '2022-08-29T15:08:00Z\n',
-           '2022-08-2\uff19T15:08:00-04:00', '2022-08-29T15:08:00+0\uff15:30', '2022-08-29\r', '2022-08-29\r\n', '2022-08-29\x00', '\n2022-08-29', '2022-08-29T15:08:00.\u0967\u0968\u0969+00:00']
+           '2022-08-2\uff19T15:08:00-04:00', '2022-08-29T15:08:00+0\uff15:30', '2022-08-29\r', '2022-08-29\r\n', '2022-08-29\x00', '\n2022-08-29', '2022-08-29T15:08:00.\u0967\u0968\u0969+00:00',
+           '2021-03-04T05:06:07.Z', '2021-03-04T05:06:07.+00:00', '2021-03-04T05:06:07.+05:45', '2021-03-04T05:06:07.-05:00', '2021-03-04T05:06:07..5Z', '2021-03-04T05:06:07,Z', '2021-03-04.']
 
 
 _DIGIT_LOOKALIKES = [0xFF10, 0x0660, 0x0966, 0x06F0, 0x09E6, 0x1D7CE]      # fullwidth, Arabic-Indic, Devanagari, Extended Arabic-Indic, Bengali, mathematical bold
@@ -176,6 +177,11 @@ def gen_invalid_text(rnd):
     """A valid ISO text made invalid by one edit that a lenient parser tends to forgive."""
     text = gen_valid_text(rnd)[0]
     k = rnd.random()
+    if k < 0.08 and 'T' in text:
+        # a decimal point with no fraction digits behind it
+        m = re.match(r'^(.*T\d\d:\d\d:\d\d)(?:\.\d+)?(.*)$', text)
+        if m:
+            return m.group(1) + '.' + m.group(2), 'empty-fraction'
     if k < 0.4:
         pos = rnd.choice([i for i, c in enumerate(text) if c.isdigit()])
         return text[:pos] + chr(rnd.choice(_DIGIT_LOOKALIKES) + int(text[pos])) + text[pos + 1:], 'non-ascii-digit'
